@@ -18,7 +18,7 @@ pub static DEF: PropDef = PropDef {
     level: "exploration",
     total: |t| t.pick(1280, 40000),
     run,
-    rule: "(a) generated description trees (1..3 top-level Networks sections with 1..4 networks of 1..4 ip/range/arbitrary-key entries, 1..6 machines with any options, 1..3 networks, 0..4 protocols and 1..4 applications carrying 0..6 arguments whose values are arbitrary printable ASCII without quote, backslash, closing bracket and 4-space runs, empty values included) are printed by the harness's own renderer in tab, 4-space and CRLF variants with the three machine sections in any order and optional Template lines, parsed by core_parser and compared with the tree; structurally broken renderings (one line indented one level too deep or too shallow, unknown section keyword, a required machine section missing, duplicate network id, duplicate argument) must yield Err with a non-empty message, never Ok and never a panic. (b) valid scenario descriptions (senders with counts 1..5 -> capture by count or by message, sender -> forward -> capture, ping_pong pair, several captures sharing a factory; receivers addressed by machine name or by address; optional ARP protocol and auto-protocol; extra unused networks) are run with generate_and_run_sim on the paused clock: the result must be Some(Exited), and the process-wide H4 hook must have seen every described message as a UDP frame to the described address and port. Non-trivial = (a) tree with >=2 networks, >=3 machines and >=1 argument value containing a space or '='; (b) every run; distinct by text hash.",
+    rule: "(a) generated description trees (1..3 top-level Networks sections with 1..4 networks of 1..4 ip/range/arbitrary-key entries, 1..6 machines with any options, 1..3 networks, 0..4 protocols and 1..4 applications carrying 0..6 arguments whose values are arbitrary printable ASCII without quote, backslash, closing bracket and 4-space runs, empty values included) are printed by the harness's own renderer in tab, 4-space and CRLF variants with the three machine sections in any order and optional Template lines, parsed by core_parser and compared with the tree; structurally broken renderings (one line indented one level too deep or too shallow, unknown section keyword, a required machine section missing, duplicate network id, duplicate argument) must yield Err with a non-empty message, never Ok and never a panic. (b) valid scenario descriptions (senders with counts 1..5 -> capture by count or by message, sender -> forward -> capture, ping_pong pair, several captures sharing a factory; receivers addressed by machine name or by address; optional ARP protocol; auto-protocol on no, every or some machines, an auto-protocol machine leaving out IPv4 and/or ARP from its list; extra unused networks) are run with generate_and_run_sim on the paused clock: the result must be Some(Exited), and the process-wide H4 hook must have seen every described message as a UDP frame to the described address and port. Non-trivial = (a) tree with >=2 networks, >=3 machines and >=1 argument value containing a space or '='; (b) every run; distinct by text hash.",
     assumptions: &[
         "well-formed argument values exclude ' \\ ] CR and runs of four spaces: the grammar cannot carry them (lexical 4-space->tab and CR removal happen before tokenising); they are used in C14 only",
         "captures are generated with counts/messages equal to what the described senders send, so the normal exit status implies they saw it; the frame log is checked independently",
@@ -331,8 +331,11 @@ struct Expect {
 
 fn gen_valid(rng: &mut impl Rng) -> (String, Expect, Value) {
     let template = rng.gen_range(0..4);
-    let arp = rng.chance(1, 3);
-    let auto = rng.chance(1, 4);
+    // auto-protocol on no machine, on every machine, or on some (it adds IPv4 and ARP where they are not
+    // listed, so then every other machine has to list ARP itself or nobody could resolve anybody)
+    let auto_mode = *rng.pick(&[0u8, 0, 1, 2, 2]);
+    let arp = rng.chance(1, 3) || auto_mode != 0;
+    let auto_name = match auto_mode { 0 => "none", 1 => "all machines", _ => "some machines" };
     let by_name = rng.chance(1, 2);
     let extra_net = rng.chance(1, 2);
     let port_hex = rng.chance(1, 2);
@@ -344,9 +347,13 @@ fn gen_valid(rng: &mut impl Rng) -> (String, Expect, Value) {
     let ipn = |k: u8| format!("{b}.{a3}.7.{}", 10 + k);
     let ipb = |k: u8| [b, a3, 7, 10 + k];
     let msg: String = (0..rng.gen_range(1..=30)).map(|_| *rng.pick(&['a', 'b', 'Z', '0', ' ', '!', '=', '-', '.', ','])).collect::<String>().trim().replace("  ", " _") + "m";
-    let protos = |rng: &mut dyn rand::RngCore| -> String {
-        let mut v = vec!["\t\t\t[Protocol name='IPv4']".to_string(), "\t\t\t[Protocol name='UDP']".to_string()];
-        if arp {
+    let protos = |auto_m: bool, rng: &mut dyn rand::RngCore| -> String {
+        let mut v = vec!["\t\t\t[Protocol name='UDP']".to_string()];
+        // a machine with auto-protocol may leave out either or both of the protocols that option supplies
+        if !auto_m || rng.gen::<bool>() {
+            v.push("\t\t\t[Protocol name='IPv4']".to_string());
+        }
+        if arp && (!auto_m || rng.gen::<bool>()) {
             v.push("\t\t\t[Protocol name='ARP']".to_string());
         }
         if rng.gen::<bool>() {
@@ -354,7 +361,6 @@ fn gen_valid(rng: &mut impl Rng) -> (String, Expect, Value) {
         }
         v.join("\n")
     };
-    let mopts = if auto { " auto-protocol='true'" } else { "" };
     let nets_of = |first: &str| if extra_net { format!("\t\t\t[Network id='{first}']\n\t\t\t[Network id='spare']") } else { format!("\t\t\t[Network id='{first}']") };
     let mut text = String::new();
     text.push_str("[Networks]\n\t[Network id='main']\n");
@@ -364,7 +370,15 @@ fn gen_valid(rng: &mut impl Rng) -> (String, Expect, Value) {
     }
     text.push_str("[Machines]\n");
     let mut expect = Expect { frames: vec![] };
-    let machine = |name: &str, opts: &str, apps: &str, rng: &mut dyn rand::RngCore| -> String { format!("\t[Machine name='{name}'{opts}{mopts}]\n\t\t[Networks]\n{}\n\t\t[Protocols]\n{}\n\t\t[Applications]\n{}\n", nets_of("main"), protos(rng), apps) };
+    let machine = |name: &str, opts: &str, apps: &str, rng: &mut dyn rand::RngCore| -> String {
+        let auto_m = match auto_mode {
+            0 => false,
+            1 => true,
+            _ => rng.gen::<bool>(),
+        };
+        let mopts = if auto_m { " auto-protocol='true'" } else { "" };
+        format!("\t[Machine name='{name}'{opts}{mopts}]\n\t\t[Networks]\n{}\n\t\t[Protocols]\n{}\n\t\t[Applications]\n{}\n", nets_of("main"), protos(auto_m, rng), apps)
+    };
     let desc;
     match template {
         0 => {
@@ -423,7 +437,7 @@ fn gen_valid(rng: &mut impl Rng) -> (String, Expect, Value) {
         1 => text.replace('\t', "    "),
         _ => text.replace('\n', "\r\n"),
     };
-    (text, expect, json!({"what": desc, "arp": arp, "auto_protocol": auto, "by_name": by_name, "extra_network": extra_net, "port": port_s, "style": style_name}))
+    (text, expect, json!({"what": desc, "arp": arp, "auto_protocol": auto_name, "by_name": by_name, "extra_network": extra_net, "port": port_s, "style": style_name}))
 }
 
 fn run_case(d: &mut Delta, rng: &mut rand::rngs::SmallRng, sample: bool) {
